@@ -81,6 +81,10 @@ def run(prop, tier):
                 cfg = CFGS[(i + pi) % len(CFGS)] if quick else None
                 for c in ([cfg] if cfg else CFGS):
                     jobs.append({"chain": ch, "cfg": c, "steps": plan})
+        for j in jobs:                                   # some in-memory levels are built over a defaultdict
+            for lv in j.get("chain", []):
+                if lv.get("kind") == "mem" and r.random() < 0.3:
+                    lv["dd"] = True
         traces = common.run_jobs("part_worker.py", jobs, wd, timeout=2400)
         payload = [{"cfg": {"chain": t["chain"]}, "ev": t["ev"]} for t in traces]
         rej, vr = tlc.validate_traces("TraceOverlay", payload, wd, timeout=1500)
